@@ -162,14 +162,14 @@ theorem fixNodeName_stable {w : World} {st : FixSt} (hw : st.toWorld = w) (hnr :
 
 theorem enterGraph_stable {w : World} (iv : Nat → List Nat) (hiv : ∀ g u, u ∈ (w.dicts g).map (·.2) ↔ u ∈ iv g)
     {st : FixSt} {V S : List Nat} (good : SGood w st V) (hS : ∀ x, x ∈ st.seen ↔ x ∈ S)
-    (g : Nat) (isG : Bool) (ins outs : List Nat)
-    (hsc : ∀ v ∈ gvals iv g isG ins outs, v ∈ S → v ∈ V) (hinj : InjT w.vname (V ++ gvals iv g isG ins outs)) :
-    Same st (enterGraph st g isG ins outs) ∧ SGood w (enterGraph st g isG ins outs) (V ++ gvals iv g isG ins outs)
-    ∧ (∀ x, x ∈ (enterGraph st g isG ins outs).seen ↔ x ∈ S ++ gvals iv g isG ins outs)
-    ∧ (enterGraph st g isG ins outs).vstack.tail = st.vstack := by
+    (g : Nat) (isG : Bool) (ins outs bouts : List Nat)
+    (hsc : ∀ v ∈ gvals iv g isG ins outs bouts, v ∈ S → v ∈ V) (hinj : InjT w.vname (V ++ gvals iv g isG ins outs bouts)) :
+    Same st (enterGraph st g isG ins outs bouts) ∧ SGood w (enterGraph st g isG ins outs bouts) (V ++ gvals iv g isG ins outs bouts)
+    ∧ (∀ x, x ∈ (enterGraph st g isG ins outs bouts).seen ↔ x ∈ S ++ gvals iv g isG ins outs bouts)
+    ∧ (enterGraph st g isG ins outs bouts).vstack.tail = st.vstack := by
   rw [enterGraph_eq good.nr]
   have good0 : SGood w (pushScope st) V := ⟨good.world, good.nr, good.top_iff, good.seen⟩
-  have hg : ∀ v, v ∈ gvals iv g isG ins outs ↔ (v ∈ ins ∨ v ∈ outs ∨ (isG = true ∧ v ∈ iv g)) := by
+  have hg : ∀ v, v ∈ gvals iv g isG ins outs bouts ↔ (v ∈ ins ∨ v ∈ outs ∨ (isG = true ∧ v ∈ iv g) ∨ v ∈ bouts) := by
     intro v; unfold gvals; cases isG <;> simp
   obtain ⟨s1, g1, e1, t1⟩ := processValues_stable ins good0 (S := S) hS
     (fun v hv h => hsc v ((hg v).mpr (Or.inl hv)) h)
@@ -187,43 +187,78 @@ theorem enterGraph_stable {w : World} (iv : Nat → List Nat) (hiv : ∀ g u, u 
       · exact Or.inr ((hg x).mpr (Or.inl hx))
       · exact Or.inr ((hg x).mpr (Or.inr (Or.inl hx)))))
   have s0 : Same st (pushScope st) := ⟨rfl, rfl, rfl⟩
-  cases isG with
-  | false =>
-    simp only [Bool.false_eq_true, if_false]
-    refine ⟨s0.trans (s1.trans s2), ⟨g2.world, g2.nr, ?_, ?_⟩, ?_, by rw [t2, t1]; rfl⟩
-    · intro s; rw [g2.top_iff s]; simp [gvals]
-    · intro u hu; exact g2.seen u (by simpa [gvals] using hu)
-    · intro x; rw [e2 x]; simp [gvals]
-  | true =>
-    simp only [if_true]
-    have hd : (processValues (processValues (pushScope st) ins) outs).dicts g = w.dicts g := by
-      rw [← g2.world]
-    have hdict : ∀ u, u ∈ ((processValues (processValues (pushScope st) ins) outs).dicts g).map (·.2) ↔ u ∈ iv g := by
-      intro u; rw [hd]; exact hiv g u
-    obtain ⟨s3, g3, e3, t3⟩ := processValues_stable
-      (((processValues (processValues (pushScope st) ins) outs).dicts g).map (·.2)) g2 e2
-      (fun v hv h => by
-        simp only [List.mem_append] at h ⊢
-        rcases h with (h | h) | h
-        · exact Or.inl (Or.inl (hsc v ((hg v).mpr (Or.inr (Or.inr ⟨rfl, (hdict v).mp hv⟩))) h))
-        · exact Or.inl (Or.inr h)
-        · exact Or.inr h)
-      (hinj.mono (fun x hx => by
-        simp only [List.mem_append] at hx ⊢
-        rcases hx with ((hx | hx) | hx) | hx
-        · exact Or.inl hx
-        · exact Or.inr ((hg x).mpr (Or.inl hx))
-        · exact Or.inr ((hg x).mpr (Or.inr (Or.inl hx)))
-        · exact Or.inr ((hg x).mpr (Or.inr (Or.inr ⟨rfl, (hdict x).mp hx⟩)))))
-    refine ⟨s0.trans (s1.trans (s2.trans s3)), ⟨g3.world, g3.nr, ?_, ?_⟩, ?_, by rw [t3, t2, t1]; rfl⟩
-    · intro s; rw [g3.top_iff s]
-      simp only [gvals, if_true, List.mem_append, hdict, or_assoc]
-    · intro u hu; refine g3.seen u ?_
-      simp only [gvals, if_true, List.mem_append, or_assoc] at hu
-      simp only [List.mem_append, hdict, or_assoc]; exact hu
-    · intro x; rw [e3 x]
-      simp only [gvals, if_true, List.mem_append, hdict, or_assoc]
-
+  -- initializers, uniformly
+  have step3 : ∃ X : List Nat, (∀ x, x ∈ X ↔ (isG = true ∧ x ∈ iv g)) ∧
+      Same (processValues (processValues (pushScope st) ins) outs)
+        (if isG = true then
+          processValues (processValues (processValues (pushScope st) ins) outs)
+            (((processValues (processValues (pushScope st) ins) outs).dicts g).map (·.2))
+        else processValues (processValues (pushScope st) ins) outs)
+      ∧ SGood w (if isG = true then
+          processValues (processValues (processValues (pushScope st) ins) outs)
+            (((processValues (processValues (pushScope st) ins) outs).dicts g).map (·.2))
+        else processValues (processValues (pushScope st) ins) outs) (V ++ ins ++ outs ++ X)
+      ∧ (∀ x, x ∈ (if isG = true then
+          processValues (processValues (processValues (pushScope st) ins) outs)
+            (((processValues (processValues (pushScope st) ins) outs).dicts g).map (·.2))
+        else processValues (processValues (pushScope st) ins) outs).seen ↔ x ∈ S ++ ins ++ outs ++ X)
+      ∧ (if isG = true then
+          processValues (processValues (processValues (pushScope st) ins) outs)
+            (((processValues (processValues (pushScope st) ins) outs).dicts g).map (·.2))
+        else processValues (processValues (pushScope st) ins) outs).vstack.tail
+          = (processValues (processValues (pushScope st) ins) outs).vstack.tail := by
+    cases isG with
+    | false =>
+      refine ⟨[], fun x => by simp, ?_⟩
+      simp only [Bool.false_eq_true, if_false, List.append_nil]
+      exact ⟨Same.refl _, g2, e2, trivial⟩
+    | true =>
+      simp only [if_true]
+      have hd : (processValues (processValues (pushScope st) ins) outs).dicts g = w.dicts g := by
+        rw [← g2.world]
+      have hdict : ∀ u, u ∈ ((processValues (processValues (pushScope st) ins) outs).dicts g).map (·.2) ↔ u ∈ iv g := by
+        intro u; rw [hd]; exact hiv g u
+      obtain ⟨s3, g3, e3, t3⟩ := processValues_stable
+        (((processValues (processValues (pushScope st) ins) outs).dicts g).map (·.2)) g2 e2
+        (fun v hv h => by
+          simp only [List.mem_append] at h ⊢
+          rcases h with (h | h) | h
+          · exact Or.inl (Or.inl (hsc v ((hg v).mpr (Or.inr (Or.inr (Or.inl ⟨rfl, (hdict v).mp hv⟩)))) h))
+          · exact Or.inl (Or.inr h)
+          · exact Or.inr h)
+        (hinj.mono (fun x hx => by
+          simp only [List.mem_append] at hx ⊢
+          rcases hx with ((hx | hx) | hx) | hx
+          · exact Or.inl hx
+          · exact Or.inr ((hg x).mpr (Or.inl hx))
+          · exact Or.inr ((hg x).mpr (Or.inr (Or.inl hx)))
+          · exact Or.inr ((hg x).mpr (Or.inr (Or.inr (Or.inl ⟨rfl, (hdict x).mp hx⟩))))))
+      exact ⟨_, fun x => by rw [hdict x]; simp, s3, g3, e3, t3⟩
+  obtain ⟨X, hX, s3, g3, e3, t3⟩ := step3
+  obtain ⟨s4, g4, e4, t4⟩ := processValues_stable bouts g3 e3
+    (fun v hv h => by
+      simp only [List.mem_append] at h ⊢
+      rcases h with ((h | h) | h) | h
+      · exact Or.inl (Or.inl (Or.inl (hsc v ((hg v).mpr (Or.inr (Or.inr (Or.inr hv)))) h)))
+      · exact Or.inl (Or.inl (Or.inr h))
+      · exact Or.inl (Or.inr h)
+      · exact Or.inr h)
+    (hinj.mono (fun x hx => by
+      simp only [List.mem_append] at hx ⊢
+      rcases hx with (((hx | hx) | hx) | hx) | hx
+      · exact Or.inl hx
+      · exact Or.inr ((hg x).mpr (Or.inl hx))
+      · exact Or.inr ((hg x).mpr (Or.inr (Or.inl hx)))
+      · exact Or.inr ((hg x).mpr (Or.inr (Or.inr (Or.inl ((hX x).mp hx)))))
+      · exact Or.inr ((hg x).mpr (Or.inr (Or.inr (Or.inr hx))))))
+  refine ⟨s0.trans (s1.trans (s2.trans (s3.trans s4))), ⟨g4.world, g4.nr, ?_, ?_⟩, ?_, by rw [t4, t3, t2, t1]; rfl⟩
+  · intro s; rw [g4.top_iff s]
+    simp only [List.mem_append, hg, hX, or_assoc]
+  · intro u hu; refine g4.seen u ?_
+    simp only [List.mem_append, hg, or_assoc] at hu
+    simp only [List.mem_append, hX, or_assoc]; exact hu
+  · intro x; rw [e4 x]
+    simp only [List.mem_append, hg, hX, or_assoc]
 
 /-- conclusion of the stable run over a list of items -/
 structure Stable (w : World) (st st' : FixSt) (V' S' N' : List Nat) : Prop where
@@ -316,10 +351,10 @@ theorem runTr_stable {w : World} (iv : Nat → List Nat) (hiv : ∀ g u, u ∈ (
     obtain ⟨hnd_b, hnd_r, hdisj⟩ := hnd
     simp only [runTr, bodyVis, seenAfter, bodyNodes, allScopes, allNodeScopes] at hinj hscopes hninj hnscopes ⊢
     have hL0 := hscopes _ List.mem_cons_self
-    have hV1 : InjT w.vname (V ++ gvals iv g isG ins outs) := hL0.mono (bodyVis_sub body _)
+    have hV1 : InjT w.vname (V ++ gvals iv g isG ins outs (bodyOuts body)) := hL0.mono (bodyVis_sub body _)
     -- entered twice
-    obtain ⟨s1, g1, e1, t1⟩ := enterGraph_stable iv hiv good hS g isG ins outs (all_imp hsc1) hV1
-    obtain ⟨s2, g2, e2, t2⟩ := enterGraph_stable iv hiv g1 e1 g isG ins outs
+    obtain ⟨s1, g1, e1, t1⟩ := enterGraph_stable iv hiv good hS g isG ins outs (bodyOuts body) (all_imp hsc1) hV1
+    obtain ⟨s2, g2, e2, t2⟩ := enterGraph_stable iv hiv g1 e1 g isG ins outs (bodyOuts body)
       (fun v hv _ => List.mem_append_right _ hv)
       (hV1.mono (fun x hx => by
         simp only [List.mem_append] at hx ⊢
@@ -327,17 +362,17 @@ theorem runTr_stable {w : World} (iv : Nat → List Nat) (hiv : ∀ g u, u ∈ (
         · exact Or.inl hx
         · exact Or.inr hx
         · exact Or.inr hx))
-    have g2' : SGood w (enterGraph (enterGraph st g isG ins outs) g isG ins outs) (V ++ gvals iv g isG ins outs) :=
+    have g2' : SGood w (enterGraph (enterGraph st g isG ins outs (bodyOuts body)) g isG ins outs (bodyOuts body)) (V ++ gvals iv g isG ins outs (bodyOuts body)) :=
       ⟨g2.world, g2.nr, fun s => by
         rw [g2.top_iff s]
         simp only [List.mem_append]
         exact ⟨fun ⟨u, hu, h⟩ => ⟨u, hu.elim id Or.inr, h⟩, fun ⟨u, hu, h⟩ => ⟨u, Or.inl hu, h⟩⟩,
        fun u hu => g2.seen u (List.mem_append_left _ hu)⟩
-    have e2' : ∀ x, x ∈ (enterGraph (enterGraph st g isG ins outs) g isG ins outs).seen ↔ x ∈ S ++ gvals iv g isG ins outs := by
+    have e2' : ∀ x, x ∈ (enterGraph (enterGraph st g isG ins outs (bodyOuts body)) g isG ins outs (bodyOuts body)).seen ↔ x ∈ S ++ gvals iv g isG ins outs (bodyOuts body) := by
       intro x; rw [e2 x]; simp only [List.mem_append]; exact ⟨fun h => h.elim id Or.inr, Or.inl⟩
-    obtain ⟨_, k1, _, _⟩ := enterGraph_nodes good.nr g isG ins outs
-    obtain ⟨_, k2, _, _⟩ := enterGraph_nodes g1.nr g isG ins outs
-    have ntop2 : NTop w (enterGraph (enterGraph st g isG ins outs) g isG ins outs) [] := by
+    obtain ⟨_, k1, _, _⟩ := enterGraph_nodes good.nr g isG ins outs (bodyOuts body)
+    obtain ⟨_, k2, _, _⟩ := enterGraph_nodes g1.nr g isG ins outs (bodyOuts body)
+    have ntop2 : NTop w (enterGraph (enterGraph st g isG ins outs (bodyOuts body)) g isG ins outs (bodyOuts body)) [] := by
       intro s; rw [k2]; simp [topOf]
     -- the body
     have r3 := ihb g2' e2' hsc2 hL0 (fun L hL => hscopes L (List.mem_cons_of_mem _ (List.mem_append_left _ hL)))
@@ -346,30 +381,30 @@ theorem runTr_stable {w : World} (iv : Nat → List Nat) (hiv : ∀ g u, u ∈ (
       (fun L hL => hnscopes L (List.mem_cons_of_mem _ (List.mem_append_left _ hL)))
     -- left twice
     have x4 := exitGraph_eq r3.good.nr
-    have nr4 : (exitGraph (runTr body (enterGraph (enterGraph st g isG ins outs) g isG ins outs))).raised = false := by
+    have nr4 : (exitGraph (runTr body (enterGraph (enterGraph st g isG ins outs (bodyOuts body)) g isG ins outs (bodyOuts body)))).raised = false := by
       rw [x4]; exact r3.good.nr
     have x5 := exitGraph_eq nr4
-    have hv5 : (exitGraph (exitGraph (runTr body (enterGraph (enterGraph st g isG ins outs) g isG ins outs)))).vstack = st.vstack := by
+    have hv5 : (exitGraph (exitGraph (runTr body (enterGraph (enterGraph st g isG ins outs (bodyOuts body)) g isG ins outs (bodyOuts body))))).vstack = st.vstack := by
       rw [x5, x4]; show (List.tail (List.tail _)) = _; rw [r3.vtail, t2, t1]
-    have hn5 : (exitGraph (exitGraph (runTr body (enterGraph (enterGraph st g isG ins outs) g isG ins outs)))).nstack = st.nstack := by
+    have hn5 : (exitGraph (exitGraph (runTr body (enterGraph (enterGraph st g isG ins outs (bodyOuts body)) g isG ins outs (bodyOuts body))))).nstack = st.nstack := by
       rw [x5, x4]; show (List.tail (List.tail _)) = _; rw [r3.ntail, k2, k1]; rfl
-    have same5 : Same (runTr body (enterGraph (enterGraph st g isG ins outs) g isG ins outs))
-        (exitGraph (exitGraph (runTr body (enterGraph (enterGraph st g isG ins outs) g isG ins outs)))) := by
+    have same5 : Same (runTr body (enterGraph (enterGraph st g isG ins outs (bodyOuts body)) g isG ins outs (bodyOuts body)))
+        (exitGraph (exitGraph (runTr body (enterGraph (enterGraph st g isG ins outs (bodyOuts body)) g isG ins outs (bodyOuts body))))) := by
       rw [x5, x4]; exact ⟨rfl, rfl, rfl⟩
-    have seen5 : (exitGraph (exitGraph (runTr body (enterGraph (enterGraph st g isG ins outs) g isG ins outs)))).seen
-        = (runTr body (enterGraph (enterGraph st g isG ins outs) g isG ins outs)).seen := by
+    have seen5 : (exitGraph (exitGraph (runTr body (enterGraph (enterGraph st g isG ins outs (bodyOuts body)) g isG ins outs (bodyOuts body))))).seen
+        = (runTr body (enterGraph (enterGraph st g isG ins outs (bodyOuts body)) g isG ins outs (bodyOuts body))).seen := by
       rw [x5, x4]
-    have mono5 : ∀ x ∈ st.seen, x ∈ (exitGraph (exitGraph (runTr body (enterGraph (enterGraph st g isG ins outs) g isG ins outs)))).seen := by
+    have mono5 : ∀ x ∈ st.seen, x ∈ (exitGraph (exitGraph (runTr body (enterGraph (enterGraph st g isG ins outs (bodyOuts body)) g isG ins outs (bodyOuts body))))).seen := by
       intro x hx
       rw [seen5]
       exact r3.mono x ((e2 x).mpr (List.mem_append_left _ (List.mem_append_left _ ((hS x).mp hx))))
-    have good5 : SGood w (exitGraph (exitGraph (runTr body (enterGraph (enterGraph st g isG ins outs) g isG ins outs)))) V :=
+    have good5 : SGood w (exitGraph (exitGraph (runTr body (enterGraph (enterGraph st g isG ins outs (bodyOuts body)) g isG ins outs (bodyOuts body))))) V :=
       ⟨same5.world.trans r3.good.world, same5.raised.trans r3.good.nr, fun s => by rw [hv5]; exact good.top_iff s,
        fun u hu => mono5 u (good.seen u hu)⟩
-    have hS5 : ∀ x, x ∈ (exitGraph (exitGraph (runTr body (enterGraph (enterGraph st g isG ins outs) g isG ins outs)))).seen
-        ↔ x ∈ seenAfter iv body (S ++ gvals iv g isG ins outs) := by
+    have hS5 : ∀ x, x ∈ (exitGraph (exitGraph (runTr body (enterGraph (enterGraph st g isG ins outs (bodyOuts body)) g isG ins outs (bodyOuts body))))).seen
+        ↔ x ∈ seenAfter iv body (S ++ gvals iv g isG ins outs (bodyOuts body)) := by
       rw [seen5]; exact r3.seenEq
-    have ntop5 : NTop w (exitGraph (exitGraph (runTr body (enterGraph (enterGraph st g isG ins outs) g isG ins outs)))) N := by
+    have ntop5 : NTop w (exitGraph (exitGraph (runTr body (enterGraph (enterGraph st g isG ins outs (bodyOuts body)) g isG ins outs (bodyOuts body))))) N := by
       intro s; rw [hn5]; exact ntop s
     -- the following sibling graphs
     have r6 := ihr good5 hS5 hsc3 hinj (fun L hL => hscopes L (List.mem_cons_of_mem _ (List.mem_append_right _ hL)))
@@ -389,9 +424,9 @@ theorem fixTop_stable {w : World} {t : Top} (iv : Nat → List Nat) (hiv : ∀ g
   have good0 : SGood w (topInit w t) [] := ⟨rfl, rfl, fun s => by simp [topInit, topOf], fun u hu => by simp at hu⟩
   have hL0 := hv _ List.mem_cons_self
   obtain ⟨s1, g1, e1, _⟩ := enterGraph_stable iv hiv good0 (S := []) (fun x => by simp [topInit])
-    t.gid t.isGraph t.ins t.outs (fun v _ h => by simp at h) (hL0.mono (bodyVis_sub t.body _))
-  obtain ⟨_, k1, _, _⟩ := enterGraph_nodes (st := topInit w t) rfl t.gid t.isGraph t.ins t.outs
-  have ntop1 : NTop w (enterGraph (topInit w t) t.gid t.isGraph t.ins t.outs) [] := by
+    t.gid t.isGraph t.ins t.outs (bodyOuts t.body) (fun v _ h => by simp at h) (hL0.mono (bodyVis_sub t.body _))
+  obtain ⟨_, k1, _, _⟩ := enterGraph_nodes (st := topInit w t) rfl t.gid t.isGraph t.ins t.outs (bodyOuts t.body)
+  have ntop1 : NTop w (enterGraph (topInit w t) t.gid t.isGraph t.ins t.outs (bodyOuts t.body)) [] := by
     intro s; rw [k1]; simp [topOf]
   have r2 := runTr_stable iv hiv t.body g1 e1 hsc.1.2 hL0 (fun L hL => hv L (List.mem_cons_of_mem _ hL)) ntop1 hnd
     (fun m _ => by simp) (by simpa using hn _ List.mem_cons_self) (fun L hL => hn L (List.mem_cons_of_mem _ hL))
